@@ -218,6 +218,9 @@ pub fn run_all() -> (Vec<Problem>, u64) {
             }
         }
     }
+    let (odd, odd_n) = odd_uniqueid_all();
+    out.extend(odd);
+    n += odd_n;
     // keep one problem per key
     out.sort_by(|a, b| a.0.cmp(&b.0));
     out.dedup_by(|a, b| a.0 == b.0);
@@ -235,9 +238,232 @@ pub fn replay(case: &serde_json::Value) -> String {
                 v.into_iter().map(|x| x.0).collect::<Vec<_>>().join("; ")
             }
         }
+        Some("odd-uid") => {
+            let parents: Vec<Option<usize>> = c["parents"].as_array().map(|a| a.iter().map(|v| v.as_u64().map(|x| x as usize)).collect()).unwrap_or_default();
+            let v = odd_uniqueid_case(&parents, c["carrier"].as_u64().unwrap_or(0) as usize, c["value"].as_u64().unwrap_or(0) as usize, c["x"].as_u64().unwrap_or(0) as usize, c["op"].as_u64().unwrap_or(0) as u8);
+            if v.is_empty() {
+                "ok".into()
+            } else {
+                v.into_iter().map(|x| x.0).collect::<Vec<_>>().join("; ")
+            }
+        }
         _ => match rootless_case(c["residents"].as_u64().unwrap_or(0) as usize, c["target"].as_u64().unwrap_or(0) as usize, c["multiple"].as_bool().unwrap_or(false)) {
             Ok(()) => "ok".into(),
             Err(w) => w,
         },
     }
+}
+
+// ---------------------------------------------------------------------------
+// A property *named* UniqueId whose value is not a `Variant::UniqueId` (only `from_raw`
+// documents a panic for it): for every operation it is a value like any other.
+// Every forest shape of <= 4 nodes x every carrier node (and all nodes) x four odd values x
+// every operand x destroy / transfer_within / transfer / clone_within / clone_into_external,
+// against a snapshot model.
+
+type Snap = std::collections::BTreeMap<String, (String, Vec<String>, Vec<(String, String)>)>;
+
+fn snapshot(dom: &WeakDom, known: &[(String, Ref)]) -> Snap {
+    let name_of = |r: Ref| -> String {
+        if r.is_none() {
+            return "<none>".into();
+        }
+        dom.get_by_ref(r).map(|i| i.name.clone()).unwrap_or_else(|| "<missing>".into())
+    };
+    let mut out = Snap::new();
+    for (n, r) in known {
+        if let Some(i) = dom.get_by_ref(*r) {
+            let mut props: Vec<(String, String)> = i.properties.iter().map(|(k, v)| (k.to_string(), format!("{:?}", v))).collect();
+            props.sort();
+            out.insert(n.clone(), (name_of(i.parent()), i.children().iter().map(|c| name_of(*c)).collect(), props));
+        }
+    }
+    out
+}
+
+pub fn odd_uniqueid_case(parents: &[Option<usize>], carrier: usize, kind: usize, x: usize, op: u8) -> Vec<(String, &'static str)> {
+    let n = parents.len();
+    let odd = |i: usize| -> Option<Variant> {
+        if carrier == n || carrier == i {
+            Some(match kind {
+                0 => Variant::String("not an id".into()),
+                1 => Variant::Bool(false),
+                2 => Variant::Int64(7),
+                _ => Variant::Ref(Ref::none()),
+            })
+        } else {
+            None
+        }
+    };
+    let mut dom = WeakDom::new(InstanceBuilder::new("DataModel").with_name("root"));
+    let mut refs: Vec<Ref> = Vec::new();
+    for i in 0..n {
+        let parent = match parents[i] {
+            None => dom.root_ref(),
+            Some(p) => refs[p],
+        };
+        let mut b = InstanceBuilder::new("Folder").with_name(format!("n{}", i)).with_property("P", Variant::Int32(i as i32));
+        if let Some(v) = odd(i) {
+            b = b.with_property("UniqueId", v);
+        }
+        refs.push(dom.insert(parent, b));
+    }
+    // insertion adds what the builder held
+    for i in 0..n {
+        let got = dom.get_by_ref(refs[i]).and_then(|inst| inst.properties.get(&"UniqueId".into()).cloned());
+        if got != odd(i) {
+            return vec![(format!("insert: n{} was built with UniqueId = {:?} and holds {:?}", i, odd(i), got), "C10")];
+        }
+    }
+    let mut dest = WeakDom::new(InstanceBuilder::new("DataModel").with_name("droot"));
+    let known: Vec<(String, Ref)> = std::iter::once(("root".to_owned(), dom.root_ref())).chain((0..n).map(|i| (format!("n{}", i), refs[i]))).collect();
+    let before = snapshot(&dom, &known);
+    // the model's subtree of x
+    let mut sub = vec![x];
+    let mut k = 0;
+    while k < sub.len() {
+        let p = sub[k];
+        for i in 0..n {
+            if parents[i] == Some(p) {
+                sub.push(i);
+            }
+        }
+        k += 1;
+    }
+    let in_sub = |name: &str| sub.iter().any(|i| format!("n{}", i) == name);
+    let xr = refs[x];
+    let res = crate::evidence::guarded(|| match op {
+        0 => {
+            dom.destroy(xr);
+            None
+        }
+        1 => {
+            let root = dom.root_ref();
+            dom.transfer_within(xr, root);
+            None
+        }
+        2 => {
+            let dr = dest.root_ref();
+            dom.transfer(xr, &mut dest, dr);
+            None
+        }
+        3 => Some(dom.clone_within(xr)),
+        _ => Some(dom.clone_into_external(xr, &mut dest)),
+    });
+    let copy = match res {
+        Ok(c) => c,
+        Err((site, msg)) => return vec![(format!("panicked at {}: {}", site, msg), "C09")],
+    };
+    let mut problems: Vec<(String, &'static str)> = Vec::new();
+    if let Err(e) = well_formed(&dom) {
+        problems.push((format!("source DOM: {}", e), "C09"));
+    }
+    if let Err(e) = well_formed(&dest) {
+        problems.push((format!("destination DOM: {}", e), "C09"));
+    }
+    let after = snapshot(&dom, &known);
+    // expected snapshot of the source DOM
+    let mut want = before.clone();
+    let xname = format!("n{}", x);
+    match op {
+        0 | 2 => {
+            want.retain(|k, _| !in_sub(k));
+            for (_, v) in want.iter_mut() {
+                v.1.retain(|c| c != &xname);
+            }
+        }
+        1 => {
+            for (_, v) in want.iter_mut() {
+                v.1.retain(|c| c != &xname);
+            }
+            if let Some(v) = want.get_mut("root") {
+                v.1.push(xname.clone());
+            }
+            if let Some(v) = want.get_mut(&xname) {
+                v.0 = "root".into();
+            }
+        }
+        _ => {}
+    }
+    if after != want {
+        let gone: Vec<&String> = want.keys().filter(|k| !after.contains_key(*k)).collect();
+        let extra: Vec<&String> = after.keys().filter(|k| !want.contains_key(*k)).collect();
+        let what = if !extra.is_empty() {
+            format!("{:?} can still be looked up", extra)
+        } else if !gone.is_empty() {
+            format!("{:?} disappeared", gone)
+        } else {
+            let k = want.iter().find(|(k, v)| after.get(*k) != Some(v)).map(|(k, _)| k.clone()).unwrap_or_default();
+            format!("{} changed: {:?} -> {:?}", k, want.get(&k), after.get(&k))
+        };
+        problems.push((format!("source DOM after the operation: {}", what), if !extra.is_empty() { "C09" } else { "C10" }));
+    }
+    // the moved / copied subtree keeps shape and properties
+    let target: Option<(&WeakDom, Ref)> = match (op, copy) {
+        (2, _) => Some((&dest, xr)),
+        (3, Some(c)) => Some((&dom, c)),
+        (4, Some(c)) => Some((&dest, c)),
+        _ => None,
+    };
+    if let Some((d, top)) = target {
+        fn shape(d: &WeakDom, r: Ref, out: &mut Vec<(String, usize, Vec<(String, String)>)>) {
+            if let Some(i) = d.get_by_ref(r) {
+                let mut props: Vec<(String, String)> = i.properties.iter().map(|(k, v)| (k.to_string(), format!("{:?}", v))).collect();
+                props.sort();
+                out.push((i.name.clone(), i.children().len(), props));
+                for &c in i.children() {
+                    shape(d, c, out);
+                }
+            }
+        }
+        let mut got = Vec::new();
+        shape(d, top, &mut got);
+        let mut exp = Vec::new();
+        fn model(parents: &[Option<usize>], before: &Snap, i: usize, out: &mut Vec<(String, usize, Vec<(String, String)>)>) {
+            let name = format!("n{}", i);
+            if let Some(v) = before.get(&name) {
+                out.push((name, v.1.len(), v.2.clone()));
+            }
+            for j in 0..parents.len() {
+                if parents[j] == Some(i) {
+                    model(parents, before, j, out);
+                }
+            }
+        }
+        model(parents, &before, x, &mut exp);
+        if got != exp {
+            problems.push((format!("the {} subtree differs from the original: {:?} vs {:?}", if op == 2 { "transferred" } else { "cloned" }, got.iter().map(|g| (&g.0, g.1)).collect::<Vec<_>>(), exp.iter().map(|g| (&g.0, g.1)).collect::<Vec<_>>()), if op == 2 { "C10" } else { "C11" }));
+        }
+    }
+    problems
+}
+
+pub fn odd_uniqueid_all() -> (Vec<Problem>, u64) {
+    let mut out: Vec<Problem> = Vec::new();
+    let mut count = 0u64;
+    for n in 1..=4usize {
+        for parents in crate::plan::forests(n) {
+            for carrier in 0..=n {
+                for kind in 0..4usize {
+                    for x in 0..n {
+                        for op in 0..5u8 {
+                            count += 1;
+                            for (what, prop) in odd_uniqueid_case(&parents, carrier, kind, x, op) {
+                                let opn = if what.starts_with("insert:") { "insert" } else { ["destroy", "transfer_within", "transfer", "clone_within", "clone_into_external"][op as usize] };
+                                out.push((
+                                    format!("domprobe|odd-typed-UniqueId|{}|{}", opn, prop),
+                                    format!("a property named UniqueId holding a {} (shape {:?}, carrier {}): {} of n{}: {}", ["String", "Bool", "Int64", "Ref"][kind], parents, if carrier == n { "every node".to_owned() } else { format!("n{}", carrier) }, opn, x, what),
+                                    serde_json::json!({"domprobe": {"kind": "odd-uid", "parents": parents, "carrier": carrier, "value": kind, "x": x, "op": op}}),
+                                    prop,
+                                ));
+                            }
+                        }
+                    }
+                }
+            }
+        }
+    }
+    out.sort_by(|a, b| a.0.cmp(&b.0));
+    out.dedup_by(|a, b| a.0 == b.0);
+    (out, count)
 }
